@@ -38,6 +38,17 @@ namespace vf {
         S_RW_ADD_OP_STATE = 110,   // async_rw_mutex add_op_state before the CAS
         S_RW_DONE_BEFORE = 111,    // done() before the exchange
         S_RW_DONE_AFTER = 112,     // done() after the exchange
+        S_SPLIT_ADD_CONT = 120,    // split: add_continuation saw predecessor_done == false, before taking the lock
+        S_SPLIT_PRED_DONE = 121,   // split: predecessor_done set, before the lock/unlock
+        S_SPLIT_RUN_CONTS = 122,   // split: before running the stored continuations
+        S_ES_ADD_CONT = 123,       // ensure_started: same three points
+        S_ES_PRED_DONE = 124,
+        S_ES_RUN_CONT = 125,
+        S_ST_ADD_CONT = 126,       // split_tuple: same three points
+        S_ST_PRED_DONE = 127,
+        S_ST_RUN_CONTS = 128,
+        S_WHEN_ALL_FINISH = 129,   // when_all: finish() before the counter decrement
+        S_WHEN_ALL_VECTOR_FINISH = 130,
         site_max = 200
     };
 }
